@@ -476,7 +476,16 @@ def write(
                         if inside is False:
                             # ...if it is one node past the targetted node, write
                             if source_grp.name == target_grp.name:
-                                if tree in (True,None):
+                                if tree is True:
+                                    new_node = _write_single_node(
+                                        target_grp,
+                                        data
+                                    )
+                                    _write_tree(
+                                        new_node,
+                                        data
+                                    )
+                                elif tree is None:
                                     _append_branch(
                                         target_grp,
                                         data,
